@@ -112,7 +112,7 @@ func (g *Gen) next0(s Snap, remaining int) Op {
 		return o
 	}
 	if remaining == 1 && g.endBad {
-		return Op{Kind: "BatchExecuted", Token: r.Intn(3), Nonce: s.Ctr[1] + uint64(r.Intn(2)), H: s.Ext + 1}
+		return Op{Kind: "BatchExecuted", Token: r.Intn(4), Nonce: s.Ctr[1] + uint64(r.Intn(2)), H: s.Ext + 1}
 	}
 	// scripted motifs, occasionally
 	if r.Chance(6) {
@@ -143,10 +143,10 @@ func (g *Gen) next0(s Snap, remaining int) Op {
 	}
 	switch kind {
 	case 0:
-		o := Op{Kind: "Send", Sender: r.Intn(3), Dest: r.Intn(3), Amount: int64(1 + r.Intn(400)), Fee: g.fee(), Token: r.Intn(3)}
+		o := Op{Kind: "Send", Sender: r.Intn(3), Dest: r.Intn(3), Amount: int64(1 + r.Intn(400)), Fee: g.fee(), Token: r.Intn(4)}
 		switch x := r.Intn(100); {
 		case x < 3:
-			o.Token = 3
+			o.Token = 4
 		case x < 5:
 			o.Amount = 0
 		case x < 7:
@@ -183,11 +183,11 @@ func (g *Gen) next0(s Snap, remaining int) Op {
 			b := s.Batches[r.Intn(len(s.Batches))]
 			o.ID, o.Token = b.Txs[0].ID, b.Token
 		} else {
-			o.ID, o.Token = uint64(r.Intn(int(s.Ctr[0])+2)), r.Intn(3)
+			o.ID, o.Token = uint64(r.Intn(int(s.Ctr[0])+2)), r.Intn(4)
 		}
 		switch x := r.Intn(100); {
 		case x < 6:
-			o.Token = r.Intn(4)
+			o.Token = r.Intn(5)
 		case x < 12:
 			o.Which = 0
 		case x < 15:
@@ -197,14 +197,14 @@ func (g *Gen) next0(s Snap, remaining int) Op {
 		}
 		return o
 	case 3:
-		o := Op{Kind: "RequestBatch", Token: r.Intn(3), Which: 1, FeeRcv: r.Intn(3), Auth: !r.Chance(7), ID: uint64(r.Intn(3)),
+		o := Op{Kind: "RequestBatch", Token: r.Intn(4), Which: 1, FeeRcv: r.Intn(3), Auth: !r.Chance(7), ID: uint64(r.Intn(3)),
 			BaseFee: []int64{0, 0, 0, 1, 3, 5, 6, 100}[r.Intn(8)], MinFee: []int64{1, 1, 1, 5, 12, 1000}[r.Intn(6)]}
 		if len(s.Pool) > 0 && r.Chance(60) {
 			o.Token = s.Pool[r.Intn(len(s.Pool))].Token
 		}
 		switch x := r.Intn(100); {
 		case x < 3:
-			o.Token = 3
+			o.Token = 4
 		case x < 8:
 			o.Which = 0
 		case x < 10:
@@ -242,8 +242,24 @@ func (g *Gen) next0(s Snap, remaining int) Op {
 		return Op{Kind: "Observe", H: g.heightNear(s)}
 	case 6:
 		o := Op{Kind: "BridgeCall", Sender: r.Intn(3), Refund: r.Intn(3), To: r.Intn(3)}
-		for t := 0; t < 3; t++ {
-			if r.Chance(45) {
+		if r.Chance(40) { // through the precompile: FX as msg.value, ERC-20 tokens of the registered coin; no from-msg marker
+			p := Op{Kind: "BridgeCallP", Sender: o.Sender, Refund: o.Refund, To: o.To, Data: []byte{byte(r.Intn(256))}}
+			if r.Chance(60) {
+				p.Amount = int64(1 + r.Intn(120))
+			}
+			if r.Chance(60) || p.Amount == 0 {
+				p.Coins = [][2]int64{{3, int64(1 + r.Intn(120))}}
+			}
+			if r.Chance(4) {
+				p.Coins = [][2]int64{{3, 2000}} // more ERC-20 than the caller holds
+			}
+			if r.Chance(3) {
+				p.Amount = 9000
+			}
+			return p
+		}
+		for t := 0; t < 4; t++ {
+			if r.Chance(40) {
 				o.Coins = append(o.Coins, [2]int64{int64(t), int64(1 + r.Intn(120))})
 			}
 		}
@@ -254,7 +270,7 @@ func (g *Gen) next0(s Snap, remaining int) Op {
 			o.Memo = append(o.Memo, byte(r.Intn(256)))
 		}
 		if r.Chance(3) {
-			o.Coins = append(o.Coins, [2]int64{3, 5})
+			o.Coins = append(o.Coins, [2]int64{4, 5})
 		}
 		if r.Chance(3) && len(o.Coins) > 0 {
 			o.Coins[0][1] = 9000 // more than the balance
@@ -303,7 +319,7 @@ func (g *Gen) next0(s Snap, remaining int) Op {
 // scripted sequences for the situations the property text names
 func (g *Gen) queueMotif(s Snap) {
 	r := g.r
-	tok := r.Intn(3)
+	tok := r.Intn(4)
 	h := s.Ext
 	if h == 0 {
 		h = uint64(100 + r.Intn(1000))
